@@ -2,7 +2,7 @@ from __future__ import annotations
 
 from typing import Callable
 
-from ._type_qualifier import Port, Generic
+from ._type_qualifier import Port, Generic, Temporary
 from ._collect_ast_and_scope import FunctionDefinition, InstantiatedFunction
 from cohdl.utility.source_location import SourceLocation
 from ._intrinsic import _intrinsic, _intrinsic_replacement, _IntrinsicInlineEntity
@@ -222,6 +222,7 @@ class Entity(Block):
         *,
         _cohdl_internal_ctor=False,
         _cohdl_instantiate_only=False,
+        _cohdl_inline=False,
         **kwargs,
     ):
         # TODO: check if this check is needed
@@ -287,6 +288,12 @@ class Entity(Block):
             if name in info.ports:
                 port = info.ports[name]
 
+                # outside of synthesizable contexts expressions are evaluated
+                # by Python, the resulting Temporary has no driver
+                assert _cohdl_inline or not isinstance(
+                    value, Temporary
+                ), f"port '{name}': computed values can only be connected in a context"
+
                 try:
                     # try assignment in the direction of the data flow
                     # to check if types are compatible
@@ -345,7 +352,7 @@ class Entity(Block):
 
     @_intrinsic_replacement(__init__)
     def _init_replacement(self, **kwargs):
-        self.__init__(**kwargs)
+        self.__init__(_cohdl_inline=True, **kwargs)
         return _IntrinsicInlineEntity(self)
 
     def architecture(self): ...
